@@ -114,13 +114,24 @@ func (w *vC26World) newRound(n *vC26Node, number uint64) *vC26Round {
 		}
 	}
 	k := 1 + rng.Intn(6)
+	// now and then a round of several hundred snapshots (nothing bounds the number of snapshots of a round; the first
+	// node's third round always is one)
+	big := n.idx == 0 && number == n.first+2 || rng.Intn(150) == 0
+	if big {
+		k = 200 + rng.Intn(300)
+		w.r.Count("rounds_of_200_to_500_snapshots", 1)
+	}
 	var ts []uint64
 	for {
 		ts = ts[:0]
 		c := n.clock
 		for i := 0; i < k; i++ {
 			if i > 0 || c%vC26Day != 0 { // a round may begin exactly at the start of a day
-				c += 1 + uint64(rng.Int63n(2_000_000_000))
+				if big {
+					c += 1 + uint64(rng.Int63n(5_000_000))
+				} else {
+					c += 1 + uint64(rng.Int63n(2_000_000_000))
+				}
 			}
 			ts = append(ts, c)
 		}
